@@ -98,7 +98,17 @@ def ro_queries(ctx, seed):
             q(ctx, 'VarSub.__call__', dict(case0, var=str(v.shape), index=AR.index_repr(ix)), lambda v=v, ix=ix: v[ix](), ref)
     # expression trees
     from rsome.lp import RandVal
-    assigns = [z.assign(val) for z, val, _ in env.z]
+    assigns = []
+    for z, val, _ in env.z:
+        u = r.random()
+        if u < 0.5 or val.ndim == 0 or val.shape[0] < 2:
+            assigns.append(z.assign(val))                      # the whole array at once
+        elif u < 0.8:
+            k = int(r.integers(1, val.shape[0]))               # two slices that cover the array
+            assigns += [z[:k].assign(val[:k]), z[k:].assign(val[k:])]
+        else:
+            assigns += [z[i].assign(val[i]) for i in range(val.shape[0])]     # entry by entry along the first axis
+    ctx.count('ro-assign-args:%d' % min(len(assigns) - len(env.z), 3))
     for n in trees:
         if n.kind == 'const':
             continue
@@ -189,6 +199,13 @@ def dro_queries(ctx, seed):
                         else:
                             x[np.unravel_index(i, shp)].adapt(z[j])
         decs.append((x, shp, mask))
+    for _ in range(2):
+        # two scalar, event-wise static decisions with partitions of their own (operands of atom(x) + y)
+        x = m.dvar()
+        part = c13.rand_partition(r, S); r.shuffle(part)
+        for e in part[1:]:
+            x.adapt([labels[i] for i in e] if labels else e)
+        decs.append((x, (), np.zeros((1, 2), bool)))
     fset = m.ambiguity()
     fset.suppset(z >= -2, z <= 2, ubar >= -2, ubar <= 2)
     m.minsup(decs[0][0].sum() if decs[0][1] != () else decs[0][0], fset)
@@ -200,6 +217,7 @@ def dro_queries(ctx, seed):
     q(ctx, 'dro model.get', {"seed": seed}, lambda: m.get(), -2.0)
     lst = m.rule_var()
     z0 = r.integers(-2, 3, 2).astype(float)
+    all_consts = []
     for x, shp, mask in decs:
         case = {"seed": seed, "S": S, "labels": bool(labels), "events": [list(map(int, e)) for e in x.event_adapt], "shape": list(shp)}
         # expected per-scenario constant part and coefficients, read from the rule_var structure itself
@@ -220,6 +238,7 @@ def dro_queries(ctx, seed):
             exp_coef.append(np.where(mask, coef, np.nan).reshape(tuple(shp) + (2,)))
             exp_val.append(c0 + (coef @ z0).reshape(shp))
         multi = len(x.event_adapt) > 1
+        all_consts.append(exp_const)
 
         def series_vals(obj, n=S):
             import pandas as pd
@@ -229,6 +248,10 @@ def dro_queries(ctx, seed):
                 if idx != want:
                     raise ValueError('series index %r != scenarios %r' % (idx, want))
                 return [np.asarray(v, dtype=float) for v in obj.values]
+            if n is None:
+                if S > 1:
+                    raise ValueError('one value per scenario expected, got a single %s' % type(obj).__name__)
+                n = S
             return [np.asarray(obj, dtype=float)] * n
         for what, f_, ref in (('DecVar.get', lambda: series_vals(x.get()), exp_const),
                               ('DecVar.__call__', lambda: series_vals(x(z.assign(z0)) if mask.any() else x()), exp_val if mask.any() else exp_const)):
@@ -244,6 +267,30 @@ def dro_queries(ctx, seed):
                 ordered = all(min(e) == sorted(min(e2) for e2 in x.event_adapt)[i] for i, e in enumerate(x.event_adapt))
                 ctx.hit('wrong-scenario-values:' + what, {"scenarios": bad, "got": [g.tolist() for g in got], "expected": [np.asarray(v).tolist() for v in ref],
                                                           "events_in_increasing_order": ordered}, c2)
+        if mask.any():
+            # realisations given slice by slice, only partly (the rest is zero), and scenario-wise for a rule that need not be
+            # event-wise: one value per scenario
+            import pandas as pd
+            v1 = float(r.integers(-2, 3)); Zs = r.integers(-2, 3, (S, 2)).astype(float)
+
+            def val_at(s, zz):
+                return exp_const[s] + (np.where(np.isnan(exp_coef[s]), 0.0, exp_coef[s]) @ zz).reshape(shp)
+            for what, f_, ref in (
+                    ('DecVar.__call__(slices)', lambda: series_vals(x(z[0].assign(z0[0]), z[1].assign(z0[1]))), exp_val),
+                    ('DecVar.__call__(one slice)', lambda: series_vals(x(z[1].assign(v1))), [val_at(s, np.array([0.0, v1])) for s in range(S)]),
+                    ('DecVar.__call__(scenario-wise)', lambda: series_vals(x(z.assign(Zs, sw=True)), n=None), [val_at(s, Zs[s]) for s in range(S)]),
+                    ('DecVar.__call__(scenario-wise slice)', lambda: series_vals(x(z[0].assign(Zs[:, 0].copy(), sw=True)), n=None),
+                     [val_at(s, np.array([Zs[s, 0], 0.0])) for s in range(S)])):
+                ctx.search_cases += 1; ctx.evaluations += 1; ctx.count('query:' + what)
+                c2 = dict(case, query=what); ctx.nontriv(c2)
+                try:
+                    with C.quiet():
+                        got = f_()
+                except Exception as ex:
+                    ctx.hit('query-raises:' + what, {"error": type(ex).__name__ + ': ' + str(ex)[:200]}, c2); continue
+                bad = [s_ for s_ in range(S) if got[s_].shape != np.asarray(ref[s_]).shape or not np.allclose(got[s_], ref[s_])]
+                if bad:
+                    ctx.hit('wrong-scenario-values:' + what, {"scenarios": bad, "got": [g.tolist() for g in got], "expected": [np.asarray(v).tolist() for v in ref]}, c2)
         if shp == () or len(shp) == 1:
             # bi-affine expressions evaluated at plain and scenario-wise realisations, in both argument orders:
             # (x * z[0] + u) (z.assign(Z, sw=True), u.assign(v)) must be one value per scenario
@@ -282,6 +329,33 @@ def dro_queries(ctx, seed):
                     ctx.hit('wrong-scenario-values:DecVar.get(rvar)', {"scenarios": bad, "got": [g.tolist() for g in got], "expected": [v.tolist() for v in exp_coef]}, c2)
             except Exception as ex:
                 ctx.hit('query-raises:DecVar.get(rvar)', {"error": type(ex).__name__ + ': ' + str(ex)[:200]}, c2)
+    dro_convex_mixed(ctx, decs, all_consts, S, labels, {"seed": seed, "S": S, "labels": bool(labels)})
+
+
+def dro_convex_mixed(ctx, decs, exp_consts, S, labels, case0):
+    """atom(x) + y for decisions with different event partitions: one value per scenario of the common refinement"""
+    import pandas as pd
+    import rsome as rso
+    sc = [(x, c) for (x, shp, mask), c in zip(decs, exp_consts) if shp == () and not mask.any()]
+    for (xa, ca), (xb, cb) in [(a, b) for a in sc for b in sc if a is not b][:2]:
+        for name, build, npf in (('abs', lambda e: abs(e), abs), ('square', lambda e: rso.square(e), lambda v: v * v)):
+            what = 'DecConvex.__call__:' + name
+            ctx.search_cases += 1; ctx.evaluations += 1; ctx.count('query:' + what)
+            c2 = dict(case0, query=what, events_atom=[list(map(int, e)) for e in xa.event_adapt], events_affine=[list(map(int, e)) for e in xb.event_adapt])
+            ctx.nontriv(c2)
+            ref = [float(npf(ca[s]) + 2 * cb[s]) for s in range(S)]
+            try:
+                with C.quiet():
+                    out = (build(xa) + 2 * xb)()
+            except Exception as ex:
+                ctx.hit('query-raises:' + what, {"error": type(ex).__name__ + ': ' + str(ex)[:200]}, c2); continue
+            if isinstance(out, pd.Series):
+                want = labels if labels else list(range(S))
+                got = [float(v) for v in out.values] if list(out.index) == want else None
+            else:
+                got = [float(out)] * S if len(set(round(v, 9) for v in ref)) == 1 else None      # a single number only if all scenarios agree
+            if got is None or not np.allclose(got, ref):
+                ctx.hit('wrong-scenario-values:' + what, {"returned": (out.tolist() if isinstance(out, pd.Series) else float(out)), "expected": ref}, c2)
 
 
 def run(ctx):
